@@ -85,6 +85,34 @@ example :
       (runHist defaultCache Profile.dev exGraph2 (initDefault exGraph2 d) h).2.dev.log.length = 5 := by
   decide +kernel
 
+/-- Raw `IPort::write`: every cachable register lists the port, so `PortDeclared` holds and a
+history with a raw port write satisfies `HistOk` non-vacuously. -/
+def exGraphP : Graph :=
+  [ .port,
+    .reg ⟨.int .le .unsigned, 0, none, 2, .writeThrough, .rw, [0], 0⟩,
+    .reg ⟨.int .le .unsigned, 1, none, 1, .writeAround, .rw, [0], 0⟩ ]
+
+def exHistP : List Op := [.value 1, .value 2, .portWrite 0 1 [9], .value 1, .value 2]
+
+example : PortDeclared exGraphP 0 := by decide
+example : Declared Profile.dev exGraphP ∧ Declared Profile.release exGraphP := by decide
+example : HistOk exGraphP exHistP := by
+  intro n a d h
+  simp only [exHistP, List.mem_cons, reduceCtorEq, Op.portWrite.injEq, List.not_mem_nil,
+    false_or, or_false] at h
+  obtain ⟨rfl, _, _⟩ := h
+  decide
+/-- without the declaration the port write is outside `HistOk` -/
+example : ¬ PortDeclared exGraph 0 := by decide
+
+/-- both registers are re-read from the device after the raw port write -/
+example :
+    (runHist defaultCache Profile.dev exGraphP
+      (initDefault exGraphP ⟨[1, 2, 0xAA, 0xBB], [], [], [], [], 0, []⟩) exHistP).1 =
+      [.ok (.int 0x0201), .ok (.int 2), .ok .unit, .ok (.int 0x0901),
+       .ok (.int 9)] := by
+  decide +kernel
+
 /-- dropping one sibling declaration is detected -/
 example : ¬ Declared Profile.dev
     [ .port,
